@@ -45,8 +45,8 @@ CFG = {
                      "every task date and every ledger entry; oracle: per resource and slot sum of bookings <= slot length, no group or "
                      "container in a ledger; non-trivial = distinct projects in which some slot is shared by >= 2 tasks"),
     "C02": dict(files=["Properties/C02.lean"], oracles=("C02",), classify=classify_c02,
-                knobs=[(3, Knobs(p_wh=0.8, p_shift=0.3, p_leave=0.6, p_gvac=0.4, p_tz=0.5)),
-                       (1, Knobs(envelope="alap", p_wh=0.8, p_leave=0.6, p_tz=0.5)),
+                knobs=[(3, Knobs(p_wh=0.8, p_shift=0.3, p_leave=0.6, p_gvac=0.4, p_tz=0.5, p_dst=0.3, dur_weeks=[1, 2, 2, 3])),
+                       (1, Knobs(envelope="alap", p_wh=0.8, p_leave=0.6, p_tz=0.5, p_dst=0.3)),
                        (1, Knobs(aligned_only=False, p_wh=0.9, p_leave=0.5, p_tz=0.3, forward_only=True, envelope="asap"))],
                 nontrivial=any_booking,
                 rule="random projects with own hours / shifts (several intervals, cross-midnight, 24:00), zones incl. DST weeks and "
